@@ -47,7 +47,11 @@ def parse_doc(ctx, text, what, case):
     if ctx.rng.random() < ctx.notes.get("_lean_parse_rate", 1.0):
         v = ctx.driver.call("xml.parse", text=text)
         lt = v["tree"] if v["ok"] else None
-        if (lt is None) != (et is None) or (lt is not None and not xmlutil.tree_eq(lt, et)):
+        if et is None and lt is not None:
+            # the Lean reader is laxer than expat on reserved PI targets (`<?xml …?>` inside content):
+            # go with the stricter verdict (not well-formed) and record the discrepancy
+            ctx.count("lean_reader_laxer_than_expat")
+        elif (lt is None) != (et is None) or (lt is not None and not xmlutil.tree_eq(lt, et)):
             raise vcore.Infra(f"Lean XML reader and expat disagree on {what}: lean={'ok' if lt else 'reject'} expat={err or 'ok'} text={text[:300]!r}")
         ctx.count("lean_reader_crosschecked")
     return et, err
@@ -245,10 +249,16 @@ def corr_case(ctx, kind, s):
     if "err" in i or m.get("err"):
         if i.get("err") != m.get("err"):
             ctx.mismatch(f"chan.{kind}: outcome", case, i, m)
+        if i.get("err") == "reparse":
+            # oracle, function level: the channel crashed on user text (an internal error, not a PyXFormError)
+            sig = "reparse-crash:nonxml-char" if any(not F.is_xml_char(c) for c in s) else "reparse-crash:other"
+            ctx.fail(Failure("reparse-crash", f"node(toParseString=True) cannot re-parse what insert_output_values made of {s!r}: {i['msg']}", case, signature=sig))
         ctx.record(case, True)
         return
-    if kind == "mixed" and (i["inserted"] != m["inserted"] or i["changed"] != m["changed"]):
-        ctx.mismatch("insert_output_values: string/flag", case, i, m)
+    if kind == "mixed":
+        # the intermediate string and flag are internals (quote style, spacing of the markup may change
+        # without moving what a reader sees): measured, never deciding
+        ctx.count("corr:inserted_string_equal" if (i["inserted"], i["changed"]) == (m["inserted"], m["changed"]) else "corr:inserted_string_differs")
     it, ierr = xmlutil.expat_tree(i["xml"])
     mt, merr = xmlutil.expat_tree(m["xml"])
     if (it is None) != (mt is None) or (it is not None and not xmlutil.tree_eq(it, mt)):
